@@ -136,14 +136,16 @@ theorem phase_table :
     lookupOrder "add_route" 99999 = -10 ∧ lookupOrder "add_view_deriver" 99999 = -20 := by decide
 
 /-- the audited list (sorted) of every place in `src/pyramid` that calls a view-lookup entry point or touches
-`__call_permissive__` -/
+`__call_permissive__`; a site inside a module-level helper is listed under the same-module functions that call the
+helper (`preserve_view_attrs` ↦ `wraps_view.inner`, `runtime_exc_view` ↦ `add_view.register`, `_error_handler` ↦
+`excview_tween`), so extracting or inlining such a helper does not change the table -/
 def auditedCallSites : List CallSite := [
   ⟨"config/views.py", "MultiView.__call_permissive__", "str:__call_permissive__", "", ""⟩,
+  ⟨"config/views.py", "ViewsConfiguratorMixin.add_view.register", "attr:__call_permissive__:store", "", ""⟩,
+  ⟨"config/views.py", "ViewsConfiguratorMixin.add_view.register", "str:__call_permissive__", "", ""⟩,
   ⟨"config/views.py", "ViewsConfiguratorMixin.add_view.register_view", "str:__call_permissive__", "", ""⟩,
-  ⟨"config/views.py", "runtime_exc_view", "attr:__call_permissive__:store", "", ""⟩,
-  ⟨"config/views.py", "runtime_exc_view", "str:__call_permissive__", "", ""⟩,
   ⟨"router.py", "Router.handle_request", "call:_call_view", "default", ""⟩,
-  ⟨"tweens.py", "_error_handler", "call:request.invoke_exception_view", "default", ""⟩,
+  ⟨"tweens.py", "excview_tween_factory.excview_tween", "call:request.invoke_exception_view", "default", ""⟩,
   ⟨"view.py", "ViewMethodsMixin.invoke_exception_view", "call:_call_view", "secure", ""⟩,
   ⟨"view.py", "_call_view", "str:__call_permissive__", "", "secure=false"⟩,
   ⟨"view.py", "render_view", "call:render_view_to_iterable", "secure", ""⟩,
@@ -151,13 +153,14 @@ def auditedCallSites : List CallSite := [
   ⟨"view.py", "render_view_to_response", "call:_call_view", "secure", ""⟩,
   ⟨"viewderivers.py", "_secured_view", "attr:__call_permissive__:store", "", ""⟩,
   ⟨"viewderivers.py", "owrapped_view._owrapped_view", "call:render_view_to_response", "default", ""⟩,
-  ⟨"viewderivers.py", "preserve_view_attrs", "str:__call_permissive__", "", ""⟩,
-  ⟨"viewderivers.py", "rendered_view.rendered_view", "call:*.render_view", "", ""⟩
+  ⟨"viewderivers.py", "rendered_view.rendered_view", "call:*.render_view", "", ""⟩,
+  ⟨"viewderivers.py", "wraps_view.inner", "str:__call_permissive__", "", ""⟩
 ]
 
 /-- the functions a request travels through from `Router.__call__` to a view callable -/
 def routerReachable : List String :=
-  ["Router.handle_request", "_error_handler", "ViewMethodsMixin.invoke_exception_view", "owrapped_view._owrapped_view"]
+  ["Router.handle_request", "_error_handler", "excview_tween_factory.excview_tween",
+   "ViewMethodsMixin.invoke_exception_view", "owrapped_view._owrapped_view"]
 
 def viewLookupCalls : List String :=
   ["call:_call_view", "call:request.invoke_exception_view", "call:render_view_to_response",
@@ -305,6 +308,15 @@ called ITSELF (event 1, never the permissive handle 101 — `secure=True` on thi
 exception view raises propagates — the model's `excOutcome`; a handler that returns is passed through. -/
 theorem tween_behaviour :
     tweenProbe.length = 12 ∧ tweenProbe.all tweenRowOk = true := by decide
+
+/-- BEHAVIOURAL.  On the tree under test, `render_view_to_response` calls the found view ITSELF (permission check
+included) when `secure` is left at its default or is `True`, and its permissive handle only for `secure=False`; the
+wrapper lookup made by `owrapped_view` (after the inner view, event 50) calls the wrapper view itself.  Together with
+`call_view_behaviour`, `multiview_behaviour` and `tween_behaviour` every component on the router's path is observed never
+to take the permissive handle — whatever helper functions the source is split into. -/
+theorem entry_points_behaviour :
+    entryProbe = [("render:default", [1]), ("render:True", [1]), ("render:False", [101]), ("owrapped", [50, 1])] := by
+  decide
 
 /-- `excPhase` is the exception-view lookup followed by `excOutcome` -/
 theorem excPhase_outcome (views : List DView) (w : World) (q : Req) (k : Nat) :
